@@ -495,6 +495,15 @@ def oracle_routes(case):
         checks.append((f'call end time {T} on an object built with end time {T0}: Coalescent.moment', o0.moment(1, end_time=T), d.moment(1, end_time=T), 1e-12))
         checks.append((f'call end time {T} on an object built with end time {T0}: tree_height.moment(2)', o0.tree_height.moment(2, end_time=T), d.moment(2, end_time=T), 1e-10))
         checks.append((f'call end time {T} on an object built with end time {T0}: total_branch_length.moment', o0.total_branch_length.moment(1, end_time=T), L.moment(1, end_time=T), 1e-12))
+    # one accumulate call on an evenly spaced grid with an epoch boundary ON a grid point vs one moment call per end time
+    bs_ = sorted({float(t) for dd in (spec.get('pop_sizes') or {}).values() if isinstance(dd, dict) for t in dd} - {0.0})
+    if bs_:
+        b_ = bs_[0]
+        grid = [b_ / 2, b_, 3 * b_ / 2, 2 * b_]
+        for k_ in (1, 2):
+            acc = np.asarray(c.accumulate(k_, grid)).ravel()
+            for g_, a_ in zip(grid, acc):
+                checks.append((f'accumulate(k={k_}) on the grid {grid} at {g_} vs moment(end_time={g_})', float(a_), d.moment(k_, end_time=g_), 1e-10))
     # reward tuples
     rs = [mk_reward(r) for r in case['rewards']]
     k = len(rs)
